@@ -425,7 +425,7 @@ class kFlowDecomp(pathmodel.AbstractPathModelDAG):
                 self._solution = {
                     "_paths_internal": paths,
                     "paths": self.G_internal.get_condensed_paths(paths),
-                    "weights": self.path_weights_sol,
+                    "weights": weights,
                 }
             self.set_solved()
             self.solve_statistics = {}
